@@ -40,12 +40,13 @@ def sha(text: str) -> str:
 
 class BlockedWatch:
     """Deadlock detector.  The step counter is the simulator's clock; when a call makes no step AND the
-    process consumes no CPU for three consecutive 10 s ticks, nothing is runnable and no event is pending:
+    process consumes no CPU for three consecutive 5 s ticks, nothing is runnable and no event is pending:
     the call is blocked for good (a lock that is never released, a read that nobody will answer).  That is
     reported as outcome DIVERGED:blocked, deterministically, instead of waiting for the harness timeout.
     A long computation inside a dependency burns CPU and is never mistaken for this."""
 
-    TICK = 10.0
+    TICK = 5.0
+    CPU_CAP = 400.0  # CPU seconds per call: > 15x the most expensive call of the committed workload
 
     def __init__(self, steps):
         import signal
@@ -66,6 +67,12 @@ class BlockedWatch:
             self.idle = 0
             return
         now = (self.steps.n, self.time.process_time())
+        if now[1] - self.steps.cpu0 > self.CPU_CAP:
+            # burning CPU without end outside ngo's own lines (e.g. an ever growing subset enumeration inside
+            # itertools): the step cap cannot see it, the blocked detector must not fire.  Backstop only.
+            self.fired += 1
+            self.steps.cpu0 = now[1]
+            raise Diverged("cpu")
         if now[0] == self.last[0] and now[1] - self.last[1] < 0.05:
             self.idle += 1
         else:
